@@ -9,7 +9,7 @@
    is C24_freezer_crash_safe (cross-table condition derived from the history; C24_freezer_crash_safe_partial
    is the older version with that condition as a hypothesis).  readable_is_appended: the
    surviving bytes are proved identical to the live table's bytes; that the live table's bytes are the
-   encoding of what was appended is not a theorem.  synced_survive: immediate form only.  The older,
+   encoding of what was appended is not a theorem.  synced_survive: FULL for one table (C24_synced_survive).  The older,
    weaker statements below are kept.
 
    FULL STATEMENTS (DESIGN.md C24) and what is proved of them:
@@ -202,6 +202,21 @@ Theorem C24_reopen_contiguous : forall maxsz encode t0 hs ci cd (cm : bool),
                     firstn (N.to_nat (eoff e)) (fbytes f') = firstn (N.to_nat (eoff e)) (fbytes f)).
 Proof. exact table_crash_safe. Qed.
 Print Assumptions C24_reopen_contiguous.
+
+(* SYNCED_SURVIVE, FULL for one table.  The ghost [S] computed by [srun] along the history is the item count
+   at the last completed Sync, lowered to the item count after every later step (so: the items covered by
+   a completed Sync and not truncated since).  After every guarded history, crashes + reopens inside
+   included, whose tail truncations are covered by the flush offset or go beyond the head (what
+   Freezer.TruncateTail's flush-first order ensures: [xguarded]), and for every final crash state:
+   the table reopens, its head is at least S and its tail is at most the tail at the crash — every item in
+   [tail at crash, S) is in the range of the reopened table. *)
+Theorem C24_synced_survive : forall maxsz encode t0 hs ci cd (cm : bool),
+  maxsz < two32 -> init true = Ok t0 -> hguarded maxsz encode t0 hs -> xguarded maxsz encode t0 hs ->
+  let '(t, S) := srun maxsz encode t0 0 hs in
+  cut_ok t ci cd ->
+  exists t', crash_reopen true t ci cd cm = Ok t' /\ S <= t_items t' /\ t_hidden t' <= t_hidden t.
+Proof. exact table_synced_survive. Qed.
+Print Assumptions C24_synced_survive.
 
 (* SYNCED_SURVIVE, the immediate form: a crash right after a completed Sync loses no item (whatever the
    cut).  The general form ("and not truncated since") is not stated over histories. *)
